@@ -1284,45 +1284,42 @@ class Gen:
 
     def g_DeepUndo(self, V):
         """aims at the undo of a sequence of setter calls whose FIRST call moved a subtree three levels deep from a
-        free tree into a WBS (or out of one): the constructor with children=[deep tree] and a rejected later argument,
-        and the bulk parent assignment whose second element is rejected"""
+        free tree into a WBS: the constructor with children=[deep tree] and a rejected later argument, and the bulk
+        parent assignment whose second element is rejected.  The deep tree gets ids of its own (20, 21, 22) so that
+        the adoption is not refused for an id clash."""
         rng = self.rng
         users = V.users()
         how = {'aim': 'deep-undo'}
-        deep = [x for x in users if V.par(x) is None and any(V.kids(c) for c in V.kids(x))]     # free root, depth >= 2 below it
         inw = [p for p in users if any(p in V.sub(r) for r in V.wr)]
-        if not deep:
-            # build a free chain x > y > z
-            leaves = [x for x in users if V.par(x) is None and not V.kids(x)]
-            two = [(m, c) for m in users if V.par(m) is None for c in V.kids(m) if not V.kids(c)]
-            rng.shuffle(two)
-            for m, c in two:
-                gs = [g for g in leaves if g != m and V.ok_parent(g, c)]
-                if gs:
-                    self.queue = [self.g_DeepUndo]
-                    return ['SetParent', rng.choice(gs), c], dict(how, v=None)
-            pairs = [(c, m) for m in leaves for c in leaves if c != m and V.ok_parent(c, m)]
-            if pairs:
-                c, m = rng.choice(pairs)
-                self.queue = [self.g_DeepUndo]
-                return ['SetParent', c, m], dict(how, v=None)
+        if not inw:
             return None
-        a = rng.choice(deep)
-        if inw and rng.random() < 0.6:
+
+        def ids_of(xs):
+            return set(V.tid(y) for y in xs)
+        deep = [x for x in users if V.par(x) is None and any(V.kids(c) for c in V.kids(x))]     # free root, depth >= 2 below it
+        pairs = [(a, p) for a in deep for p in inw
+                 if not (ids_of(V.sub(a)) & ids_of(V.sub(V.root(p)))) and V.ok_children(p, V.kids(p) + [a])]
+        if not pairs:
+            if getattr(self, 'deepundo_built', False):
+                return None
+            self.deepundo_built = True
+            n = V.n
+            self.queue = [(['NewTask', 21, None, 'b', None], {}), (['NewTask', 22, None, 'c', None], {}),
+                          (['SetParent', n + 1, n], dict(how, v=None)), (['SetParent', n + 2, n + 1], dict(how, v=None)),
+                          self.g_DeepUndo]
+            return ['NewTask', 20, None, 'a', None], {}
+        a, p = rng.choice(pairs)
+        r = rng.random()
+        if r < 0.6:
             # constructor: parent inside a WBS, children=[a] (adopted with its whole subtree), then a rejected dependency
-            okp = [p for p in inw if V.ok_children(p, V.kids(p) + [a])] or inw
-            p = rng.choice(okp)
-            i = self.unused_id
+            i = 23 if 23 not in ids_of(users) else self.unused_id
             bad = rng.choice([[p], [a]] + ([[V.anc(p)[0]]] if V.anc(p) and not V.hid(V.anc(p)[0]) else []))
             if rng.random() < 0.5:
                 return ['NewTaskRel', i, 'a', p, [a], [], bad], dict(how, fch='list', fsu='list', fpr='list', pass_empty=False)
             return ['NewTaskRel', i, 'a', p, [a], bad, []], dict(how, fch='list', fsu='list', fpr='list', pass_empty=False)
         # bulk parent: [a, offender].parent = p with p inside a WBS; the offender is rejected after a was adopted
-        if inw:
-            p = rng.choice(inw)
-            off = [x for x in users if x != a and not V.ok_parent(x, p)] or [p]
-            return ['LstSetParent', [a, rng.choice(off)], p], dict(how)
-        return None
+        off = [x for x in users if x != a and x not in V.sub(a) and not V.ok_parent(x, p)] or [p]
+        return ['LstSetParent', [a, rng.choice(off)], p], dict(how)
 
     def g_WbsRemove(self, V):
         rng = self.rng
